@@ -112,7 +112,7 @@ def plain(s):
 
 
 def json_denote(kind, tok):
-    if tok == "null":
+    if tok in ("null", ""):
         return SAME
     if tok in ("true", "false"):
         return NONE
